@@ -67,6 +67,19 @@ def pattern_atom(r, txn, variables=()):
         return f'regex("{tok}\\\\s*[A-Z0-9#]*")' if r.random() < 0.5 else f'regex("{tok}")'
     if k < 0.58:
         return f'normalized("{tok_s.replace(" ", "")}")'
+    if k < 0.68 and r.random() < 0.3:
+        # a RANGE written as a comparison chain (`lo < amount <= hi`, the month or the date between two bounds): true only when EVERY link is;
+        # the transaction passes the first link and, half of the time, fails the second
+        a = txn['amount'] or 0
+        lo, hi = sorted([a - r.choice([1, 50, 0.01]), a + (r.choice([1, 50, 0.01]) if r.random() < 0.5 else -r.choice([0.5, 20, 0.005]))])
+        if r.random() < 0.3 and txn.get('date'):
+            d = txn['date']
+            if r.random() < 0.5:
+                return f'{max(1, d.month - 2)} <= month <= {d.month - (0 if r.random() < 0.5 else 1)}' if d.month > 1 else f'1 <= month < {r.choice([1, 2])}'
+            d1 = (d - datetime.timedelta(days=r.choice([3, 40]))).isoformat()
+            d2 = (d + datetime.timedelta(days=r.choice([-1, 5, 40]))).isoformat()
+            return f'"{d1}" <= date <= "{d2}"'
+        return r.choice([f'{lo!r} < amount <= {hi!r}', f'{hi!r} >= amount > {lo!r}', f'{lo!r} <= amount < {hi!r}', f'{lo!r} < amount < {hi!r} < {hi + 1!r}'])
     if k < 0.68:
         a = txn['amount']
         op = r.choice(['>', '>=', '<', '<=', '==', '!='])
@@ -190,6 +203,9 @@ def gen_rules_file(r, txn, n=None, force_ties=False, dup_names=False, let_twins=
             rule['lets'] = [('big', 'amount > 100'), ('lbl', 'lowercase(description)')][:r.choice([1, 2])]
             if r.random() < 0.5:
                 rule['match'] = rule['match'] + ' and (big or amount <= 100)'
+            if r.random() < 0.6:
+                # a dynamic tag that reads the rule's OWN let binding: resolved in that rule's scope, wherever the rule sits in the file
+                rule['tags'] = list(rule.get('tags', [])) + [r.choice(['{big}', '{lbl}', '{Big}', '{"b" if big else "s"}'][:2 * len(rule['lets'])] or ['{big}'])]
         if let_twins and r.random() < 0.3:
             rule['lets'] = [('hit', gen_match(r, txn, tuple(variables)))]
             rule['match'] = r.choice(['hit', 'hit and amount == amount'])
